@@ -271,3 +271,8 @@ def stats(cases, obs):
         if k == "tenc":
             d["tenc:" + f[1]] = d.get("tenc:" + f[1], 0) + 1
     return d
+
+
+def nontrivial(case, obs):
+    """compared against the model (not impl-only) and not a degenerate empty observation"""
+    return obs not in ("impl-only", "-", "bad-case", "unknown")
